@@ -98,6 +98,13 @@ Definition check_cse_parts (es : list expr) (reps : list (expr * expr)) (red bac
         check_closed es (map fst nr) (red ++ map snd nr) ]
   end.
 
+(* ---------- the per-instance hypothesis of the flow / faithfulness theorems: every Symbol leaf
+   of the inputs was collected into excluded_symbols by find_repeated ---------- *)
+Definition excl_complete (excl : hset) (es : list expr) : bool :=
+  forallb (fun e => forallb (fun n => hset_mem (ESym n) excl) (syms e)) es.
+Definition excl_complete_run (es : list expr) : res bool :=
+  do excl <- tree_cse_excluded (cse_fuel [] es) [] es; Ok (excl_complete excl es).
+
 (* ---------- guards: the classes of inputs on which the code departs from the property
    (CseRefuted.v), excluded from the faithfulness theorem ---------- *)
 Definition is_reserved_funsym (e : expr) : bool :=
